@@ -1896,7 +1896,9 @@ def rule_startmisc(text):
          "assignment through Mutex::get_mut()"),
         (r"Arc" + ws + r"::" + ws + r"clone" + ws + r"\(" + ws + r"&" + ws + r"self" + ws + r"\." + ws + r"retirement_queue" + ws + r"\)", r"self.retirement_queue.clone()", "R-handle", "Arc::clone(&x) = x.clone()"),
         (r"self" + ws + r"\." + ws + r"worker_channels" + ws + r"\." + ws + r"clone\(\)", r"clone_senders(&self.worker_channels)", "R-clone", "shim: Vec<Sender>::clone = element-wise clone (same channels)"),
-        (r"let" + ws + r"interval" + ws + r"=" + ws + r"WRITE_BUFFER_FLUSH_INTERVAL" + ws + r";", r"let interval = flush_interval();", "R-backoff", "the flush interval is an opaque Duration (real time is not modelled)"),
+        (r"\bWRITE_BUFFER_FLUSH_INTERVAL\b", r"flush_interval()", "R-backoff", "the flush interval is an opaque Duration (real time is not modelled) that is known to be THE flush interval"),
+        (r"\bWRITE_BUFFER_\w+_INTERVAL\b", r"other_interval()", "R-backoff", "another Duration constant: opaque, and not the flush interval"),
+        (r"thread" + ws + r"::" + ws + r"park_timeout" + ws + r"\(" + ws + r"(\w+)" + ws + r"\)", r"thread_park_timeout(&\1)", "R-backoff", "a timed park between two rounds: like sleep, no effect on the state"),
         (r"thread" + ws + r"::" + ws + r"sleep" + ws + r"\(" + ws + r"interval" + ws + r"\)", r"thread_sleep(&interval)", "R-backoff", "sleep has no effect on the state"),
         (r"for" + ws + r"\(" + ws + r"(\w+)" + ws + r"," + ws + r"(\w+)" + ws + r"\)" + ws + r"in" + ws + r"(\w+)" + ws + r"\." + ws + r"iter\(\)" + ws + r"\." + ws + r"enumerate\(\)" + ws + r"\{",
          r"for \1 in 0..\3.len() { let \2 = &\3[\1];", "R-for", "definition of iter().enumerate() over a Vec"),
